@@ -61,3 +61,10 @@ def register_all(reg):
     reg("C26", "seqx", "exploration", "bounded-exhaustive input enumeration vs reference model (3 layers)",
         "All discovery states (<=5 agents, <=6 computations, replica sets <=2-3, departed <=2-3) through the real removal functions; all create_*_constraint inputs over small menus and all setup_repair-generated constraints evaluated on every binary assignment against the defining sums.",
         "Hosting maps enumerated up to agent renaming; the pipeline layer uses dsa loads and an unstarted ResilientAgent; a single repair round. " + E2_NOTE, "DESIGN.md 3 C26")
+
+    reg("C23", "seqx", "exploration", "bounded-exhaustive inputs + enumerated random draws vs set-arithmetic reference",
+        "All small graphs (four real graph builders) x 1-4 agents x capacity / hosting / route / hint menus x the 12 shipped methods through distribute() and a slice through the real distribute command, judged against a reference (hosted once, declared agents, must-host for the method documented to honour it, capacity for capacity-aware methods) or ImpossibleDistributionException / timeout.",
+        "GLPK_CMD is substituted by a CBC shim from the harness side (no glpsol binary in the sandbox); which methods are capacity-aware / hint-aware is taken from their documentation. " + E2_NOTE, "DESIGN.md 3 C23")
+    reg("C24", "seqx", "exploration", "bounded-exhaustive instances vs brute-force optimum over all mappings",
+        "Every tiny DCOP shape (<=4 quick / <=5 thorough computations, <=3 agents, <=k non-base profile dimensions of footprint/capacity/hosting/route/load) is distributed by the real oilp_cgdp / ilp_fgdp; the method's own distribution_cost of the result is compared with the minimum over all |A|^|C| mappings passing its hard rules; ImpossibleDistributionException iff none passes.",
+        "Trusted base: the CBC shim standing in for GLPK_CMD, CBC optimality, symmetric loads/routes. " + E2_NOTE, "DESIGN.md 3 C24")
